@@ -2,12 +2,13 @@
 (the administrator reshuffles owners/groups/modes, non-administrator identities act; the kernel side acts under
 setfsuid/setfsgid/setgroups of the calling thread inside the chroot)."""
 from ..props import CHECKS
-from .c01 import oracle_part, fs_part, corpus_part
+from .c01 import oracle_part, fs_part, corpus_part, fs_corpus_part
 
 
 def check_C03(ctx):
     ctx.proofs()
     fs_part(ctx)
+    fs_corpus_part(ctx)
     oracle_part(ctx, "dac", "fso-dac", "MemFS allows/refuses differently from Linux DAC (key %s, %d histories) and the deviation is not a listed known finding")
     # fixed witness histories of the repaired DAC deviations (set-id clearing, ...): any deviation there is a violation
     corpus_part(ctx, "C03-witness.cases", "fso-c03-corpus")
